@@ -476,6 +476,13 @@ def run(out: Outcome) -> None:
                 continue
         group_case(out, rng, classes, share_cfg=same and rng.random() < 0.6, with_cb=rng.choice([False, False, False, True, True, "single", "two"]), short=(i % 2 == 0), runners=runners,
                    limit=(2000 if thorough else 300) if i % 2 == 0 else (10 if thorough else 3))
+    # in EVERY run: two and three detectors, each with its OWN history callback (same class and different classes), interleaved - the logs each update returns are that
+    # detector's own
+    pool = [c for c in dets.CLASSES if c != "KSWIN"]
+    for k_f in range(3):
+        a_ = pool[(out.seed + 5 * k_f) % len(pool)]
+        b_ = pool[(out.seed + 5 * k_f + 3) % len(pool)]
+        group_case(out, rng, [a_, a_] if k_f == 0 else [a_, b_, a_][: 2 + k_f % 2], share_cfg=False, with_cb=True if k_f < 2 else "two", short=False, runners=runners, limit=3)
     # every class at least once with a shared config object and different parameters in the same process (class-level caches)
     for c in dets.CLASSES:
         if c == "KSWIN":
